@@ -78,6 +78,7 @@ fn probe_corpus() -> &'static Vec<(InputSpec, Vec<i32>)> {
                         chans: (0..channels).map(|c| ChanSpec { segs: vec![Seg { class: cls, amp: (2 + (i + c as u64) % 3) as u8, p: (i * 977) as u32 }] }).collect(),
                         rel: (i % 5) as u8,
                         seed: i,
+                        explicit: None,
                     };
                     let s = inp.samples();
                     v.push((inp, s));
@@ -262,6 +263,7 @@ pub fn any_cfg_strategy() -> BoxedStrategy<CfgSpec> {
             mae_steps: mae,
             window: w,
             max_parameter: mp,
+            cfg_block: None,
         })
         .boxed()
 }
